@@ -215,7 +215,7 @@ def in_memory(h):
         h.ensure('index-beyond-the-end-is-refused', h.exc_is(e, 'IndexError'))
 
 
-@unit('C07', 'iteration', FUNCS)
+@unit('C07', 'iteration', FUNCS, replay='contracts.C07:replay_iteration')
 def iteration(h):
     st, f, cache, loaded = file_store(h, 'READ')
     it = h.I.call(h.I.getattr(st, '__iter__'), [], {})
@@ -235,6 +235,93 @@ def iteration(h):
     ident = identity_of(r)
     h.ensure('yields-in-insertion-order', ident is not None and ident == ROW(j))
     h.ensure('advances-by-one', to_z3(it.attrs['_index']) == j + 1)
+
+
+@unit('C07', 'iteration.passes-are-independent', FUNCS, replay='contracts.C07:replay_iteration')
+def iteration_independent(h):
+    """"Iteration yields the trajectories in insertion order" for every pass, also while another pass over the same store
+    is under way (zip(store, store), nested loops, a paused iterator): a pass that has yielded two trajectories yields the
+    third next, whatever a second pass started in between has done; the second pass starts at the first trajectory."""
+    st, f, cache, loaded = file_store(h, 'READ')
+    n = to_z3(f.length)
+    h.assume(n >= 3, 'at least three trajectories in the store')
+    I = h.I
+    h.trust('TrajectoryStore.__getitem__ / __len__ inside the iterator by their contracts (proved on the real bodies by the getitem.* units): '
+            'store[i] is the i-th trajectory added for 0 <= i < len, IndexError beyond; len = number of successful additions')
+
+    def getitem(I_, fi, a, kw):
+        i = to_z3(a[1])
+        if I_.ctx.branch(z3.And(i >= 0, i < n)):
+            return TrajRec(ROW(i))
+        I_.raise_('IndexError', 'trajectory index out of range')
+    h.summary(TS + '.__getitem__', getitem)
+    h.summary(TS + '.__len__', lambda I_, fi, a, kw: n)
+
+    def nxt(it):
+        return identity_of(I.call(I.getattr(it, '__next__'), [], {}))
+    try:
+        it1 = I.call(I.getattr(st, '__iter__'), [], {})
+        a0, a1 = nxt(it1), nxt(it1)
+        it2 = I.call(I.getattr(st, '__iter__'), [], {})
+        b0 = nxt(it2)
+        a2 = nxt(it1)
+        b1 = nxt(it2)
+    except PyExc as e:
+        h.fail('no-internal-error', repr(e.inst) + ' at ' + str(e.inst.where))
+        return
+    h.ensure('first-pass-in-insertion-order', z3.And(*[x is not None and x == ROW(z3.IntVal(i)) for i, x in enumerate((a0, a1, a2))]) if None not in (a0, a1, a2) else False)
+    h.ensure('second-pass-starts-at-the-first-trajectory-and-goes-on-in-order',
+             z3.And(b0 == ROW(z3.IntVal(0)), b1 == ROW(z3.IntVal(1))) if None not in (b0, b1) else False)
+
+
+def replay_iteration(payload):
+    """Native: several passes over one store at once against the same routines over a list."""
+    import os
+    import shutil
+    import tempfile
+    from AEIC.trajectories import TrajectoryStore
+    tmp = tempfile.mkdtemp(prefix='c07i-', dir=os.environ.get('VERIF_SCRATCH'))
+    problems = []
+    TrajectoryStore.active_in_thread = None
+    try:
+        path = os.path.join(tmp, 's.nc')
+        model = []
+        with TrajectoryStore.create(base_file=path) as ts:
+            for i in range(5):
+                ts.add(_mk(i))
+                model.append(float(1000 + i))
+        TrajectoryStore.active_in_thread = None
+        for how, store in (('file', lambda: TrajectoryStore.open(base_file=path)), ('memory', None)):
+            if store is None:
+                TrajectoryStore.active_in_thread = None
+                ts = TrajectoryStore.create()
+                for i in range(5):
+                    ts.add(_mk(i))
+            else:
+                ts = store()
+            try:
+                key = lambda t: t.starting_mass     # noqa
+                got = [(key(a), key(b)) for a, b in zip(ts, ts)]
+                if got != list(zip(model, model)):
+                    problems.append(f'{how}: zip(store, store) gives {got[:3]}..., a list gives {list(zip(model, model))[:3]}...')
+                got = [(key(a), key(b)) for a in ts for b in ts]
+                if got != [(a, b) for a in model for b in model]:
+                    problems.append(f'{how}: a nested loop over the store gives {len(got)} pairs, a list {len(model) ** 2}')
+                it = iter(ts)
+                first = [key(next(it)), key(next(it))]
+                whole = [key(t) for t in ts]
+                rest = [key(t) for t in it]
+                if first + rest != model or whole != model:
+                    problems.append(f'{how}: a paused pass continued with {rest} after {first} (another full pass ran in between: {whole})')
+            except Exception as e:   # noqa
+                problems.append(f'{how}: {type(e).__name__}: {e}')
+            finally:
+                ts.close()
+                TrajectoryStore.active_in_thread = None
+        return dict(reproduced=bool(problems), observed=problems[:5], required='every pass over the store yields the trajectories in insertion order')
+    finally:
+        TrajectoryStore.active_in_thread = None
+        shutil.rmtree(tmp, ignore_errors=True)
 
 
 @unit('C07', 'open.reestablishes-invariant', FUNCS)
